@@ -11,6 +11,7 @@
                               exactly what the harness' automaton drove into the real VM
     HI <tick|->               first tick at which the simulator model meets the C04 signature
     MS s;s;…                  delivered streams, simulator model + Lean environment
+    RF s;s;…                  streams of the reference network `Bm.refNet` (round-robin schedule)
     SH s;s;…                  delivered streams of the emitted Verilog under BMV.Vlog + Lean environment
     YZ ok <clocks> | YZ differ@<clock> <Y…> <Z…> | YZ fail@<clock> <error>
                               `BMV.Bm.rtlCycle` against the Verilog, every register, every clock
@@ -290,7 +291,9 @@ def endCase (st : St) : List String :=
       | some _ =>
         [match st.evDiff with | none => "EV ok" | some t => s!"EV differ@{t}",
          s!"HI {match st.hzIsa with | some t => toString t | none => "-"}",
-         "MS " ++ streamsStr (envStreams st.env)]
+         "MS " ++ streamsStr (envStreams st.env),
+         -- the reference (blocking-IO network) semantics under a round-robin schedule
+         "RF " ++ streamsStr (refStreams st.topo (refRun st.machine ((st.spec).getD {}) (max st.tick st.clocks)))]
       | none => [s!"HI {match st.hzIsa with | some t => toString t | none => "-"}"]
     else []
   let hdlLines :=
